@@ -5,15 +5,21 @@
   RHIns.lean / RH.lean / RHErase.lean (shared robin-hood core).
   Model: Cello/Table.lean (`step`, `run`: src/Table.c as it is now; `specStep`, `specRun`: association lists).
   Source-derived facts: CelloGen/Table.lean (`primes`, `loadNum/loadDen`, `tieGe`, `setGrowsEmpty`, `assignGuardsSelf`,
-  `getShortcutChecksKey`, `probe`);
+  `getShortcutChecksKey`, `probe`, `stringCmpText`/`stringCStrText`/`cStrText`);
   CelloGen/Cmp.lean (`eq`, `Int_Cmp`) and CelloGen/Hash.lean (`hash_data`) for the Int / String key classes.
 
-  Key objects.  In the model an object is a value; `Table_Get` alone looks at the *address* of its key argument
-  (Table.c:523-525).  `Op.get t k` is a `get` whose key object lies outside the table's slot array (`KeyArg.obj k`); a key
-  argument that points into the table's own storage is `KeyArg.inSlot`, covered by `C02_get_mem_agree` (explicit hypothesis
-  `a.outside`), `C02_get_iteration_pointer` (the intended use) and `C02_get_value_pointer_refuted` (known finding
-  KF-C02-get-alias).  `get` changes no state, so these single-table statements apply at every point of every history
-  (`C02_invariant_every_step` supplies `Rep`).
+  Key objects.  In the model an object is a value; `Table_Get` alone looks at the *address* of its key argument.
+  `Op.get t k` is a `get` whose key object lies outside the table's slot array (`KeyArg.obj k`); a key
+  argument that points into the table's own storage is `KeyArg.inSlot`.  Since fix bc940bb (the address short cut is taken only
+  for the stored key object of an occupied record) `C02_get_mem_agree` holds for EVERY key argument, `C02_get_any_key_object`
+  is a theorem about the current source, and `C02_get_value_pointer_old_refuted` speaks about the explicit OLD variant
+  `cfgAnyAddress` (was known finding KF-C02-get-alias).  `get` changes no state, so these single-table statements apply at every
+  point of every history (`C02_invariant_every_step` supplies `Rep`).
+
+  Key equality.  The model's key test is Lean equality of the abstract key, decided — for the two key classes the property
+  names — by the C predicate `eq` over the comparison the type registers.  That the predicate IS equality is proved from the
+  translated `eq`/`Int_Cmp` for Int keys; for String keys it needs `String_Cmp` = `strcmp`, the explicit assumption
+  `StringCmpIsStrcmp` about the source text, which `C02_string_keys` proves for the text that is in src/String.c now.
 -/
 import Cello.Table
 import CelloGen.Table
@@ -50,6 +56,10 @@ theorem C02_idealSize_gt (n : Nat) : n < idealNow n :=
     `Table_Set` grows an `nslots = 0` table (F03 fixed), `Table_Ideal_Size n > n`, `Table_Assign` returns at once when
     `self is obj` (self-assignment fixed).  Stops type-checking when src/Table.c changes any of them. -/
 theorem C02_current_source_good : GoodCfg cfgNow := ⟨rfl, rfl, C02_idealSize_gt, rfl⟩
+
+/-- **… and the address short cut of `Table_Get` is taken only for the stored key object of an occupied record** (fix bc940bb):
+    what the lookup theorems for arbitrary key objects need.  Stops type-checking when the test is weakened again. -/
+theorem C02_current_source_checks_key : cfgNow.getChecksKey = true := rfl
 
 /-- **C02 (core).** For every key type with decidable equality, every value type, *every hash function*, every number of
     table variables and every history of `new / set / rem / get / mem / len / iter / riter / resize / assign / copy`
@@ -156,38 +166,47 @@ theorem C02_iteration_each_key_once (hash : κ → Nat) (t : Tab κ ν) (m : Spe
   refine ⟨foreach_keys_nodup hash t r.toWF, foreach_perm hash t m r.toRep0, ?_, foreachRev_eq_reverse hash t r.toWF⟩
   rw [(foreach_perm hash t m r.toRep0).length_eq, r.len]
 
-/-- **`get` and `mem` agree with the map — for a key object that does not lie in the table's own slot array** (`a.outside`,
-    decidable; the hypothesis the address test of Table.c:523-525 forces).  `getArg` is the whole of `Table_Get`.
-    Partial: the full statement `C02_get_any_key_object_statement` (any key object) is refuted below for the source as it is. -/
-theorem C02_get_mem_agree_partial (cfg : Cfg) (hash : κ → Nat) (asKey : ν → Option κ) (t : Tab κ ν) (m : Spec κ ν)
-    (r : Rep hash t m) (a : KeyArg κ) (hout : a.outside = true) :
-    ∃ k, a = .obj k ∧
-      getArg cfg hash asKey t a = .ok (match Spec.get m k with | none => .raised .KeyError | some v => .val v) ∧
-      mem hash t k = .ok (.bool (Spec.get m k).isSome) := by
-  cases a with
-  | obj k => exact ⟨k, rfl, get_rep hash t m r k, mem_rep hash t m r k⟩
-  | inSlot i p => cases hout
+/-- **`get` and `mem` agree with the map — for EVERY key object**, the source as it is now (`getArg` is the whole of
+    `Table_Get`, `hc` is `C02_current_source_checks_key`): an object outside the table (`.obj k`), the key object the table
+    stores in record `i` (what iteration hands out), the value object of record `i`, an address inside an empty record.
+    `a.denote` is the key value the object has when read as a key (`cast(key, t->ktype)`): `get` answers what the map binds to
+    that value, `KeyError` when it binds nothing, and the cast's `ValueError` when the object is not of the key type.
+    (Before fix bc940bb this needed the hypothesis `a.outside`: `C02_get_value_pointer_old_refuted`.) -/
+theorem C02_get_mem_agree (cfg : Cfg) (hc : cfg.getChecksKey = true) (hash : κ → Nat) (asKey : ν → Option κ) (t : Tab κ ν)
+    (m : Spec κ ν) (r : Rep hash t m) (a : KeyArg κ) :
+    getArg cfg hash asKey t a = .ok (match a.denote asKey t with
+      | none => .badOp
+      | some (.error e) => .raised e
+      | some (.ok k) => match Spec.get m k with | none => .raised .KeyError | some v => .val v) ∧
+    ∀ k, a.denote asKey t = some (.ok k) → mem hash t k = .ok (.bool (Spec.get m k).isSome) :=
+  ⟨getArg_rep_checked cfg hc hash asKey t m r a, fun k _ => mem_rep hash t m r k⟩
 
-/-- the hypothesis is met by every key the harness builds on the stack (`$I(9)`), here on a reachable table -/
-example : (KeyArg.obj 9 : KeyArg Nat).outside = true ∧
-    (run cfgNow (fun k => k) (fresh cfgNow Nat Nat 1) [.set 0 4 1, .set 0 9 2]).toOption.map
-        (fun r => r.1.map (fun t => (getArg cfgNow (fun k => k) some t (.obj 9)).toOption.map (fun o => match o with | .val v => v | _ => 0)))
-      = some [some 2] := by decide
+/-- the same for the code as it is in /repo now -/
+theorem C02_get_mem_agree_current_source (hash : κ → Nat) (asKey : ν → Option κ) (t : Tab κ ν) (m : Spec κ ν)
+    (r : Rep hash t m) (a : KeyArg κ) :
+    getArg cfgNow hash asKey t a = .ok (match a.denote asKey t with
+      | none => .badOp
+      | some (.error e) => .raised e
+      | some (.ok k) => match Spec.get m k with | none => .raised .KeyError | some v => .val v) :=
+  (C02_get_mem_agree cfgNow C02_current_source_checks_key hash asKey t m r a).1
+
+/-- every kind of key argument on a reachable table `{4 → 9, 9 → 2}` (Int → Int): a stack object, the stored key object of
+    9 (slot 4), the value object of 4 (slot 0 after the wrap; it says 9, bound to 2), the value object of 9 (it says 2: not
+    bound), an address inside an empty record, an address outside the array -/
+example :
+    (run cfgNow (fun k => k) (fresh cfgNow Nat Nat 1) [.set 0 9 2, .set 0 4 9]).toOption.map
+        (fun r => r.1.map (fun t => ([KeyArg.obj 9, .inSlot 4 .key, .inSlot 0 .val, .inSlot 4 .val, .inSlot 2 .key, .inSlot 5 .val].map
+          (fun a => (getArg cfgNow (fun k => k) some t a).toOption.map
+            (fun o => match o with | .val v => v | .raised .KeyError => 100 | .raised .ValueError => 101 | .badOp => 102 | _ => 0)))))
+      = some [[some 2, some 2, some 2, some 100, some 101, some 102]] := by decide
 
 /-- **the intended use of the address test**: `get(t, p)` for the key object `p` that the table stores for `k` — what
     `foreach (p in t)` hands out — answers what the map binds to `k` (and `KeyError` when `k` is not bound and there is no
-    such object); with the test as it is and with the repaired test -/
+    such object); with the test as it is and with the old test -/
 theorem C02_get_iteration_pointer (cfg : Cfg) (hash : κ → Nat) (asKey : ν → Option κ) (t : Tab κ ν) (m : Spec κ ν)
     (r : Rep hash t m) (k : κ) :
     getViaKey cfg hash asKey t k = .ok (match Spec.get m k with | none => .raised .KeyError | some v => .val v) :=
   getViaKey_rep cfg hash asKey t m r k
-
-/-- what the code as it is answers to `get(t, get(t, k))`: the value bound to `k` once more — it never looks at what the
-    *value* object says when read as a key -/
-theorem C02_get_value_pointer_answer (cfg : Cfg) (hc : cfg.getChecksKey = false) (hash : κ → Nat) (asKey : ν → Option κ)
-    (t : Tab κ ν) (m : Spec κ ν) (r : Rep hash t m) (k : κ) :
-    getViaVal cfg hash asKey t k = .ok (match Spec.get m k with | none => .raised .KeyError | some v => .val v) :=
-  getViaVal_rep cfg hc hash asKey t m r k
 
 /-- the full statement for `get`, for a configuration of the model: whatever object is passed as the key — also the value
     object of one of the table's own records, read as a key by `asKey` (`cast(x, t->ktype)`; Int → Int tables: the identity)
@@ -196,15 +215,28 @@ def C02_get_any_key_object_statement (cfg : Cfg) : Prop :=
   ∀ (κ ν : Type) [DecidableEq κ] (hash : κ → Nat) (asKey : ν → Option κ) (t : Tab κ ν) (m : Spec κ ν), Rep hash t m → ∀ k,
     getViaVal cfg hash asKey t k = .ok (Spec.getOfVal asKey m k)
 
-/-- the source as it is, whatever the translator finds for the other parameters -/
+/-- OLD variant: `Table_Get` as it was before fix bc940bb (any address inside the slot array takes the short cut), whatever
+    the translator finds for the other parameters -/
 def cfgAnyAddress : Cfg := { cfgNow with getChecksKey := false }
-/-- the source with the repair proposed for KF-C02-get-alias (short cut only for the key object of an occupied record) -/
+/-- the checked address test, explicitly (what `cfgNow` is as long as the fix is in the source) -/
 def cfgKeyChecked : Cfg := { cfgNow with getChecksKey := true }
 
-/-- **the proposed repair is right on the model**: with the checked address test the full statement holds -/
+/-- **`get(t, get(t, k))` for the code as it is in /repo now**: the full statement holds (it was refuted before fix bc940bb) -/
+theorem C02_get_any_key_object : C02_get_any_key_object_statement cfgNow := by
+  intro κ ν _ hash asKey t m r k
+  exact getViaVal_rep_checked cfgNow C02_current_source_checks_key hash asKey t m r k
+
+/-- … and for the explicit checked variant, independent of what the translator reads -/
 theorem C02_get_any_key_object_repaired : C02_get_any_key_object_statement cfgKeyChecked := by
   intro κ ν _ hash asKey t m r k
   exact getViaVal_rep_checked cfgKeyChecked rfl hash asKey t m r k
+
+/-- what the OLD test answered to `get(t, get(t, k))`: the value bound to `k` once more — it never looked at what the
+    *value* object says when read as a key -/
+theorem C02_get_value_pointer_old_answer (cfg : Cfg) (hc : cfg.getChecksKey = false) (hash : κ → Nat) (asKey : ν → Option κ)
+    (t : Tab κ ν) (m : Spec κ ν) (r : Rep hash t m) (k : κ) :
+    getViaVal cfg hash asKey t k = .ok (match Spec.get m k with | none => .raised .KeyError | some v => .val v) :=
+  getViaVal_rep cfg hc hash asKey t m r k
 
 /-- `get` or `rem` of an absent key raises `KeyError` and leaves the table exactly as it was -/
 theorem C02_absent_key_KeyError_unchanged (cfg : Cfg) (hash : κ → Nat) (t : Tab κ ν) (m : Spec κ ν)
@@ -266,16 +298,38 @@ theorem C02_int_keys (N : Nat) (ops : List (Op (BitVec 64) ν)) :
       StRel intKeyHash ts' (@specRun _ ν intKeyEq (List.replicate N []) ops).1 :=
   ⟨int_eq_iff, int_eq_hash, @C02_current_source _ ν intKeyEq intKeyHash N ops⟩
 
-/-- **String keys.**  `eq` over `strcmp` (`String_Cmp`) is equality of the byte strings, equal keys hash equally
-    (`String_Hash` = `hash_data` of the bytes, constants from src/Hash.c), and the model run with that key test and that hash
-    refines the map, for every history. -/
+/-- **String keys.**  The assumption first, proved for the source as it is now: `String_Cmp` — the comparison `eq` runs on two
+    String keys — is `strcmp` of the two character buffers (`StringCmpIsStrcmp`: the bodies of `String_Cmp`, `String_C_Str`,
+    `c_str` read from src/String.c on every run are the texts `bytesCmp` models; a `String_Cmp` that compares a prefix, folds
+    case, masks a bit or looks at anything but the bytes up to the terminator stops this theorem).  Then: `eq` over `strcmp`
+    is equality of the byte strings, equal keys hash equally (`String_Hash` = `hash_data` of the bytes, constants from
+    src/Hash.c), and the model run with that key test and that hash refines the map, for every history. -/
 theorem C02_string_keys (N : Nat) (ops : List (Op (List UInt8) ν)) :
+    StringCmpIsStrcmp ∧
     (∀ a b : List UInt8, CelloGen.Cmp.eq Cello.Cmp.bytesCmp a b = true ↔ a = b) ∧
     (∀ a b : List UInt8, CelloGen.Cmp.eq Cello.Cmp.bytesCmp a b = true → stringKeyHash a = stringKeyHash b) ∧
     ∃ ts' os, @run _ ν stringKeyEq cfgNow stringKeyHash (fresh cfgNow _ ν N) ops = .ok (ts', os) ∧
       List.Forall₂ (@ObsRel _ ν) os (@specRun _ ν stringKeyEq (List.replicate N []) ops).2 ∧
       StRel stringKeyHash ts' (@specRun _ ν stringKeyEq (List.replicate N []) ops).1 :=
-  ⟨string_eq_iff, string_eq_hash, @C02_current_source _ ν stringKeyEq stringKeyHash N ops⟩
+  ⟨(show _ ∧ _ ∧ _ from ⟨rfl, rfl, rfl⟩), string_eq_iff, string_eq_hash, @C02_current_source _ ν stringKeyEq stringKeyHash N ops⟩
+
+/-- **why the assumption is needed**: the translated `eq` over a comparison that is `memcmp` on the shorter of the two lengths
+    (the tie-break on the length forgotten) holds for "item" and "items" — two keys for the map, one key for a table that tests
+    keys with it whenever the second meets the first on its probe path; over `strcmp` (`bytesCmp`) it does not.  Near keys of
+    this kind (proper prefixes, last byte, case, bit 7) on one probe path are what the correspondence check feeds the real
+    Table. -/
+theorem C02_weak_string_cmp_is_not_equality :
+    CelloGen.Cmp.eq prefixCmp [105, 116, 101, 109] [105, 116, 101, 109, 115] = true ∧
+    CelloGen.Cmp.eq Cello.Cmp.bytesCmp [105, 116, 101, 109] [105, 116, 101, 109, 115] = false ∧
+    ([105, 116, 101, 109] : List UInt8) ≠ [105, 116, 101, 109, 115] := by decide
+
+/-- the String instance runs: "item" and "items" stay two keys although both land in one cluster (the hash is arbitrary in the
+    model; here constant), the longer one is found with its own value, removing the shorter one leaves it -/
+example : ((@run _ Nat stringKeyEq cfgNow (fun _ => 7) (fresh cfgNow _ Nat 1)
+      [.set 0 [105, 116, 101, 109] 1, .set 0 [105, 116, 101, 109, 115] 2, .len 0, .get 0 [105, 116, 101, 109],
+       .rem 0 [105, 116, 101, 109], .mem 0 [105, 116, 101, 109, 115], .get 0 [105, 116, 101, 109, 115]]).toOption.map
+        (fun r => r.2.map (fun o => match o with | .nat n => n | .val v => v | .bool b => if b then 1 else 0 | _ => 0)))
+      = some [0, 0, 2, 1, 0, 1, 2] := by decide
 
 /-- the instances run: Int keys 2^32 apart that collide modulo 5 stay two keys (a comparison narrower than 64 bits would merge
     them), `get` finds the second -/
@@ -348,11 +402,12 @@ theorem C02_self_assign_refuted :
         = some (some 1) := by
   decide
 
-/-- **Known finding KF-C02-get-alias (not repaired).** `Table_Get` answers any address inside its own slot array with the
-    value of that record (Table.c:523-525).  On the reachable table `{1 → 2, 2 → 3}` (Int → Int), `v = get(t, 1)` is an Int
-    object with value 2 that lives in the table; `get(t, v)` answers 2, the map binds 2 to 3.  Hence the full statement fails
-    and `C02_get_mem_agree_partial` carries the hypothesis `a.outside`. -/
-theorem C02_get_value_pointer_refuted : ¬ C02_get_any_key_object_statement cfgAnyAddress := by
+/-- **The address short cut of `Table_Get` (repaired in /repo, bc940bb; was known finding KF-C02-get-alias).**  The OLD
+    `Table_Get` answered any address inside its own slot array with the value of that record.  On the reachable table
+    `{1 → 2, 2 → 3}` (Int → Int), `v = get(t, 1)` is an Int object with value 2 that lives in the table; `get(t, v)` answered
+    2, the map binds 2 to 3.  Hence the full statement fails for the OLD variant `cfgAnyAddress` (and holds for the current
+    source: `C02_get_any_key_object`). -/
+theorem C02_get_value_pointer_old_refuted : ¬ C02_get_any_key_object_statement cfgAnyAddress := by
   intro h
   obtain ⟨ts', os, h1, _, R⟩ := C02_current_source hid 1 ([.set 0 1 2, .set 0 2 3] : List (Op Nat Nat))
   have hrun : run cfgNow hid (fresh cfgNow Nat Nat 1) ([.set 0 1 2, .set 0 2 3] : List (Op Nat Nat))
@@ -364,19 +419,21 @@ theorem C02_get_value_pointer_refuted : ¬ C02_get_any_key_object_statement cfgA
   revert this
   decide
 
-/-- the same on the model, evaluated: the answer of the code as it is, of the repaired code, and of the map -/
+/-- the same on the model, evaluated: the answer of the OLD code, of the code as it is now, and of the map -/
 example :
     (run cfgNow hid (fresh cfgNow Nat Nat 1) [.set 0 1 2, .set 0 2 3]).toOption.map
         (fun r => r.1.map (fun t => ((getViaVal cfgAnyAddress hid some t 1).toOption.map (fun o => match o with | .val v => v | _ => 0),
-                                     (getViaVal cfgKeyChecked hid some t 1).toOption.map (fun o => match o with | .val v => v | _ => 0))))
+                                     (getViaVal cfgNow hid some t 1).toOption.map (fun o => match o with | .val v => v | _ => 0))))
       = some [(some 2, some 3)] ∧
     (match Spec.getOfVal some (specRun (List.replicate 1 ([] : Spec Nat Nat)) [.set 0 1 2, .set 0 2 3]).1[0]! 1 with
       | .val w => w | _ => 0) = 3 := by decide
 
-/-- the address test does not look at whether the record is occupied either: an address inside an empty record of a fresh
-    table is answered with a pointer to zeroed memory, where the map says `KeyError` -/
-theorem C02_get_unoccupied_record_refuted :
+/-- the OLD address test did not look at whether the record is occupied either: an address inside an empty record of a fresh
+    table was answered with a pointer to zeroed memory; the current test lets it fall through to the cast, which refuses it -/
+theorem C02_get_unoccupied_record_old_refuted :
     (getArg cfgAnyAddress hid some (new cfgNow : Tab Nat Nat) (.inSlot 0 .key)).toOption.map (fun o => match o with | .zeroed => true | _ => false)
+      = some true ∧
+    (getArg cfgNow hid some (new cfgNow : Tab Nat Nat) (.inSlot 0 .key)).toOption.map (fun o => match o with | .raised .ValueError => true | _ => false)
       = some true := by decide
 
 /-! ### non-vacuity -/
